@@ -376,7 +376,7 @@ func opGroupAndMeta(r *rand.Rand, scenarios int) {
 			} else {
 				var ps []string
 				for _, p := range parts {
-					ps = append(ps, fmt.Sprintf("%s/%d=%d=%s=%s", p.Topic, p.ID, p.Leader.ID, brokerIDs(p.Replicas), brokerIDs(p.Isr)))
+					ps = append(ps, fmt.Sprintf("%s/%d=%d=%s=%s=%d", p.Topic, p.ID, p.Leader.ID, brokerIDs(p.Replicas), brokerIDs(p.Isr), errCode(p.Error)))
 				}
 				sort.Strings(ps)
 				emit(op, dash(strings.Join(ps, ",")))
